@@ -7,9 +7,9 @@
     bw|outInd|chunks@ind/...|i:c:k / i:l:1,2 / i:o|i:1,1/...|align(0/1)|fn|coords
     mb|chunks/...|none or specs (i3;t1,1)|drop ints|none or new axes|fn|coords
     elemwise|chunks/...|coords          squeeze|x|axes|coords      expand|x|axes|coords     permute|x|axes|coords
-    pr|x|ax:k,...|ax:k,...|kind(0 keepdims/1 concat/2 toCombine)|coords
+    pr|x|ax:k,...|ax:k / ax:t5,5,2 ...|kind(0 keepdims/1 concat/2 toCombine)|coords
     concat|chunks/...|axis|none or chunks|coords
-    stack|chunks/...|axis|coords        unstack|x|axis|coords      repeat|x|r|axis|coords   copy|x|copy sizes|coords
+    stackunify|chunks/...    stack|chunks/...|axis|coords        unstack|x|axis|coords      repeat|x|r|axis|coords   copy|x|copy sizes|coords
     index|x|i ; s:start:stop:step:orig ; a:len|coords
     qr1|a|coords        qr3|q1|r2,c2|coords      qr2|r,n
     reduced|shape|axes|keepdims(0/1)    aslices|lens|start|stop    bshapes|shape/shape/...    tree|k|d|nb     reggrid|c|n
@@ -121,6 +121,18 @@ def parsePairs (s : String) : List (Nat × Nat) :=
                 | _, _ => none
     | _ => none)
 
+def parseComb (s : String) : List (Nat × CombSize) :=
+  if s == "-" || s.isEmpty then [] else
+  (s.splitOn "/").filterMap (fun e =>
+    match e.splitOn ":" with
+    | [a, v] =>
+      match parseNat? a with
+      | some a =>
+        if v.startsWith "t" then some (a, CombSize.sizes (parseNats (v.drop 1).toString))
+        else (parseNat? v).map (fun k => (a, CombSize.const k))
+      | none => none
+    | _ => none)
+
 def parseSel (s : String) : Option Sel :=
   match s.splitOn ":" with
   | ["i"] => some .int
@@ -171,7 +183,7 @@ def handle (line : String) : String :=
     let b := permuteBw (parseChunks x) (parseNats axes)
     answer (bwChunkss b) (bwBlock b .same) (parseCoords coords)
   | ["pr", x, split, comb, cc, coords] =>
-    let p : PartialReduce := { x := parseChunks x, split := parsePairs split, combine := parsePairs comb,
+    let p : PartialReduce := { x := parseChunks x, split := parsePairs split, combine := parseComb comb,
                                kind := if cc == "1" then .concat else if cc == "2" then .toCombine else .keepdims }
     answer (some (prChunkss p)) (prBlock p) (parseCoords coords)
   | ["concat", args, axis, ch, coords] =>
@@ -182,6 +194,10 @@ def handle (line : String) : String :=
     let a := parseChunksList args
     let ax := (parseNat? axis).getD 0
     answer (stackChunkss a ax) (stackBlock a ax) (parseCoords coords)
+  | ["stackunify", args] =>
+    match stackUnify (parseChunksList args) with
+    | some u => "ok " ++ "/".intercalate (u.map showChunks)
+    | none => "error"
   | ["unstack", x, axis, coords] =>
     let ax := (parseNat? axis).getD 0
     answer (unstackChunkss (parseChunks x) ax) (unstackBlock (parseChunks x) ax) (parseCoords coords)
